@@ -16,6 +16,11 @@ Proof. reflexivity. Qed.
 Lemma outpoint_width : lit lits_Filter_addOutPoint 0 = 4.
 Proof. reflexivity. Qed.
 
+Lemma w32_mod x : w32 x = x mod 2^32.
+Proof. unfold w32. change 4294967295 with (N.ones 32). apply N.land_ones. Qed.
+Lemma w8_mod x : w8 x = x mod 2^8.
+Proof. unfold w8. change 255 with (N.ones 8). apply N.land_ones. Qed.
+
 (* ---------- bits of a byte ---------- *)
 Lemma land_pow2 b k : N.land b (2^k) = if N.testbit b k then 2^k else 0.
 Proof.
@@ -38,7 +43,7 @@ Proof. rewrite N.shiftr_div_pow2. reflexivity. Qed.
 
 Lemma mask_small k : k < 8 -> w8 (N.shiftl 1 k) = 2^k.
 Proof.
-  intros Hk. unfold w8. rewrite N.shiftl_1_l. apply N.mod_small.
+  intros Hk. rewrite w8_mod. rewrite N.shiftl_1_l. apply N.mod_small.
   change (2^8) with (2^8). apply N.pow_lt_mono_r; lia.
 Qed.
 
@@ -112,7 +117,7 @@ Proof. induction js as [|j js IH]; intros v; cbn [fold_left]; [reflexivity|]. re
 (* ---------- bit selection ---------- *)
 Lemma nbits_no_wrap m : len_ok_msg m -> nbits m = N.of_nat (length (m_bytes m)) * 8.
 Proof.
-  unfold len_ok_msg, nbits, w32. intros H. destruct lits_hash as (_ & ->).
+  unfold len_ok_msg, nbits. rewrite !w32_mod. intros H. destruct lits_hash as (_ & ->).
   rewrite (N.mod_small (N.of_nat _)) by lia.
   rewrite N.shiftl_mul_pow2. change (2^3) with 8. apply N.mod_small. lia.
 Qed.
@@ -327,5 +332,5 @@ Proof.
   rewrite repeat_length, N2Nat.id. change max_filter_size with 36000 in H1.
   repeat split; try assumption; try lia.
   - apply Forall_forall. intros b Hb. apply repeat_spec in Hb. exact Hb.
-  - unfold w32. apply N.mod_lt. lia.
+  - rewrite w32_mod. apply N.mod_lt. lia.
 Qed.
